@@ -135,7 +135,12 @@ func (ctx *Context) InitRAT() {
 }
 
 func (ctx *Context) TransactionRATWrite(exe Execution, sequenceID int32) {
-	ctx.transactionRAT.Write(exe.Register, transactionUnit{sequenceID, exe.RegisterValue})
+	// Results land in completion order: when an older instruction completes
+	// after a younger one that writes the same register, the younger value has
+	// to stay the most recent one.
+	ctx.transactionRAT.WriteSorted(exe.Register, transactionUnit{sequenceID, exe.RegisterValue}, func(u transactionUnit) bool {
+		return u.sequenceID > sequenceID
+	})
 }
 
 func (ctx *Context) RATCommit() {
